@@ -174,6 +174,13 @@ Run(st0, par, node, path, tgt) ==
                ELSE Res(st2, "ok", <<-1, f>>, 0, 0)
           [] node.k = "probe" ->
                Res(Log(st2, [p |-> path, what |-> "mode", v |-> st2.frames[f].mode]), "ok", tgt, 0, 0)
+          \* a plain callable (a Python function, not a spec object) standing directly as a step or a dict value:
+          \* AUTO and FILL call it with the target (it logs the call and returns its target); only the argument
+          \* interpreter keeps it as the object it is, uncalled -- and that interpreter is over when the step
+          \* that evaluated its arguments is
+          [] node.k = "call" ->
+               IF EffMode(st2, f) = "ARG" THEN Res(st2, "ok", <<-8>>, 0, 0)
+               ELSE Res(Log(st2, [p |-> path, what |-> "mode", v |-> st2.frames[f].mode]), "ok", tgt, 0, 0)
           [] node.k = "read" ->
                LET rr == Resolve(st2.frames, f, node.a) IN
                Res(Log(st2, [p |-> path, what |-> "read", v |-> IF rr.found THEN rr.val ELSE <<"inv">>]), "ok", tgt, 0, 0)
